@@ -1440,6 +1440,55 @@ def report_bad_calls(run, bad_extra):
 
 
 
+# ---------------------------------------------------------------------------------------------------------------
+# maps whose VALUES tie.  Keys of a map and members of a set are pairwise different, so a sorted enumeration of
+# them has one answer; the values of a map may be equal and still tell each other apart (1 and 1.0, [1] and
+# [1.0]).  Wherever the values are put in order, a tie must be settled by something the map's contents determine
+# (Order!OrderIndependence: the result is a function of the collection, not of how it was built) - if it is left
+# to the internal order, equal maps give different texts.  In-process: the internal order of a host map is its
+# construction order, whatever the hash seed.
+TIE_ENTRIES = [("'a'", "1"), ("'b'", "1.0"), ("'c'", "[1]"), ("'d'", "[1.0]"), ("'e'", "1")]
+TIE_FORMS = ["list(m)", "[v for v in values m]", "[e for e in entries m]", "string(m)", "set(list(m))", "sorted(list(m))",
+             "do def r = []; for v in m append(r, v); r end", "do def [p, q, t...] = list(m); [p, q] end", "[...list(m)]",
+             "string(object(m))"]
+
+
+def value_ties(run, functions):
+    import itertools
+    from ckl.interpreter import Interpreter
+    from . import absval
+    from ckl.values import StringOutput
+    it = Interpreter(True, False)
+    it.setStandardOutput(StringOutput())             # print / println are among the functions
+    for mod in calls_mod.MODULES:
+        absval.outcome(lambda: it.interpret(f"require {mod}", "c12"))
+    orders = list(itertools.permutations(range(len(TIE_ENTRIES))))
+    orders = orders[::5]                     # 24 of the 120 construction orders, the identity first
+    forms = list(TIE_FORMS) + [f"{call}(m)" for call, _ in functions] + [f"{call}(list(m))" for call, _ in functions]
+    n = 0
+    for form in forms:
+        texts = {}
+        for od in orders:
+            lit = "<<<" + ", ".join(f"{TIE_ENTRIES[i][0]} => {TIE_ENTRIES[i][1]}" for i in od) + ">>>"
+            o = absval.outcome(lambda: it.interpret(f"def m = {lit}; string({form})", "c12"), limit=20)
+            n += 1
+            if o[0] == "val":
+                t = "val " + str(o[1])
+            elif o[0] == "err":
+                t = "err " + str(getattr(o[2], "msg", ""))[:120]
+            else:
+                t = None                    # a host exception or a hang is C13's business
+            if t is not None:
+                texts.setdefault(t, od)
+        if len(texts) > 1 and not any(w in form for w in ("random", "shuffle", "sample", "choice", "uuid", "timestamp")):
+            (ta, oa), (tb, ob) = sorted(texts.items())[:2]
+            run.violation("value-ties:" + form,
+                          f"varies (value ties): {form} of a map with the entries {TIE_ENTRIES} gives {ta[:100]} when they are put "
+                          f"in in the order {list(oa)} and {tb[:100]} in the order {list(ob)}",
+                          {"kind": "value-ties", "form": form})
+    return n, len(forms)
+
+
 def run(run):
     quick = run.tier == "quick"
     rng = random.Random(run.seed)
@@ -1457,7 +1506,8 @@ def run(run):
     f_big = tlc_pool.submit(run_tlc, "Order", "Order_bigraw", coverage=False, timeout=1800, workers=3)
     ts = templates()
     batches = make_batches(ts, rng, norders, 6, reps)
-    cgroups = call_groups(rng, quick, calls_mod.functions_of_tree())
+    functions = calls_mod.functions_of_tree()
+    cgroups = call_groups(rng, quick, functions)
     f_calls = tlc_pool.submit(calls_mod.execute, cgroups, 8)          # the driver processes run beside the scripts
     try:
         obs, owner, nproc, cut = observe(batches, seeds, legacy_seeds)
@@ -1639,7 +1689,9 @@ def run(run):
     covered = sorted({t.prog for t in ts if t.prog} | {d[2] for g in cgroups for d in g["directed"].values()
                                                         if d[2] and d[2] != "@rng"})
     run.cov["traces_validated_against_impl"] = ntrace
-    run.cov["evaluations"] = sum(len(r) for r in obs.values()) + call_stats["evaluations"]
+    ntie, ntieforms = value_ties(run, functions)
+    run.cov["value_ties"] = {"forms": ntieforms, "construction_orders": 24, "evaluations": ntie, "entries": TIE_ENTRIES}
+    run.cov["evaluations"] = sum(len(r) for r in obs.values()) + call_stats["evaluations"] + ntie
     run.cov["distinct_nontrivial"] = len({(tid, bid) for tid, bid, _ in obs}) + call_stats["calls"]
     run.cov["rule"] = ("distinct_nontrivial = template instances (enumeration path x element subset) + calls of the "
                        "call channel (function x argument shape x pool); evaluations = template executions (instance x "
@@ -1714,6 +1766,10 @@ def replay_call(run, case):
 def replay(run, case):
     if case.get("kind") == "call":
         return replay_call(run, case)
+    if case.get("kind") == "value-ties":
+        n, _ = value_ties(run, [(case["form"][:-3], None)] if case["form"].endswith("(m)") else [])
+        run.cov["evaluations"] = n
+        return
     t = T(case["tid"], case["body"], case.get("prog"), None, case.get("pool", "str"), case.get("parse", "tokens"))
     orders = [(o[0], list(o[1])) for o in case["orders"]]
     if t.pool == "str":
